@@ -103,67 +103,120 @@ def run(ctx, report: Report) -> None:
         if fn is None:
             raise AnalysisError(f'css_match.{q} not found')
         uses = [c for c in walk_no_nested(fn) if isinstance(c, ast.Call) and call_name(c).endswith(guard)]
-        r2.instance({'reader': q, 'guard': guard, 'uses': len(uses)}, key=q)
+        via = None
+        if not uses:
+            # the test may live in a helper the reader calls directly (one level, same class hierarchy)
+            for c in walk_no_nested(fn):
+                if isinstance(c, ast.Call) and call_name(c).startswith(('self.', 'cls.')) and call_name(c).count('.') == 1:
+                    hq = src.find_method('css_match.CSSMatch', call_name(c).split('.')[1])
+                    if hq is None or hq.endswith(('.match_selectors', '.' + fn.name)):
+                        continue
+                    _, hf = src.func(hq)
+                    if any(isinstance(x, ast.Call) and call_name(x).endswith('is_content_string') for x in walk_no_nested(hf)):
+                        uses, via = [c], hq
+                        break
+        r2.instance({'reader': q, 'guard': guard, 'uses': len(uses), 'via_helper': via}, key=q)
         r2.obligation(bool(uses))
         if not uses:
             r2.violation(f'css_match.{q} unguarded text', mmod.where(fn),
                          f'{q} reads node text without consulting {guard}: comments, CDATA, processing instructions, '
                          f'declarations or doctypes are counted as text')
-    # comprehension filters: the element expression must be the filtered variable
-    for q in ('_DocumentNav.get_text', '_DocumentNav.get_own_text'):
-        fn = mmod.functions[q]
-        comps = [n for n in ast.walk(fn) if isinstance(n, (ast.ListComp, ast.GeneratorExp))]
-        ok = False
-        for c in comps:
-            g = c.generators[0]
-            ok = ok or (len(g.ifs) == 1 and call_name(g.ifs[0]).endswith('is_content_string')
-                        and unparse(g.ifs[0].args[0]) == unparse(g.target) == unparse(c.elt))
-        r2.instance({'reader': q, 'comprehension_filters_each_node': ok}, key=q + '-comp')
-        r2.obligation(ok)
-        if not ok:
-            r2.violation(f'css_match.{q} filter shape', mmod.where(fn), f'{q} no longer filters every collected node with is_content_string')
+    # the two collectors, interpreted on an abstract node sequence: text, special strings ('!...') and a tag
+    from ..interp import Obj, Raised, call_function
+    from ..miniev import Unsupported
+    tag = Obj(_name='tag')
+    nodes = ['a', '!comment', tag, 'b', '!cdata', 'c']
 
-    # ---- R3 ----------------------------------------------------------------------------------------------
-    r3 = report.rule('C19-R3', 'descendant text is joined, own text is per node', floor=5)
-    gt, got = mmod.functions['_DocumentNav.get_text'], mmod.functions['_DocumentNav.get_own_text']
-    joins_t = [c for c in ast.walk(gt) if isinstance(c, ast.Call) and isinstance(c.func, ast.Attribute) and c.func.attr == 'join']
-    joins_o = [c for c in ast.walk(got) if isinstance(c, ast.Call) and isinstance(c.func, ast.Attribute) and c.func.attr == 'join']
-    src_t = any(call_name(c).endswith('get_descendants') for c in ast.walk(gt) if isinstance(c, ast.Call))
-    src_o = any(call_name(c).endswith('get_contents') or call_name(c).endswith('get_children') for c in ast.walk(got) if isinstance(c, ast.Call))
-    desc_o = any(call_name(c).endswith('get_descendants') for c in ast.walk(got) if isinstance(c, ast.Call))
-    sep_ok = bool(joins_t) and inv.folder.try_ev('css_match', joins_t[0].func.value, default=None) == ''
-    for key, ok, msg in (
-            ('get_text joins descendants with no separator', sep_ok and src_t,
-             'get_text must be "".join(content strings among the descendants): a needle spanning node boundaries must be found'),
-            ('get_own_text does not join', not joins_o and src_o and not desc_o,
-             'get_own_text must return the list of direct child content strings, unjoined: :-soup-contains-own matches within a '
-             'single text node only')):
-        r3.instance({'shape': key, 'holds': ok}, key=key)
-        r3.obligation(ok)
-        if not ok:
-            r3.violation(f'text shape: {key}', mmod.where(gt if 'get_text' in key else got), msg)
+    def collect(q, no_iframe):
+        seen = {}
+
+        def source(kind):
+            def f(el, *a, **kw):
+                seen['source'] = kind
+                seen['no_iframe'] = kw.get('no_iframe', a[-1] if a and kind == 'contents' else kw.get('no_iframe'))
+                seen['tags'] = kw.get('tags', True)
+                return list(nodes)
+            return f
+        stubs = {'css_match._DocumentNav.get_descendants': source('descendants'),
+                 'css_match._DocumentNav.get_contents': source('contents'),
+                 'css_match._DocumentNav.get_children': source('contents'),
+                 'css_match._DocumentNav.is_content_string': lambda n: isinstance(n, str) and not n.startswith('!'),
+                 'css_match._DocumentNav.is_special_string': lambda n: isinstance(n, str) and n.startswith('!'),
+                 'css_match._DocumentNav.is_navigable_string': lambda n: isinstance(n, str),
+                 'css_match._DocumentNav.is_tag': lambda n: n is tag}
+        try:
+            out = call_function(ctx, f'css_match.{q}', [Obj(_name='el')], {'no_iframe': no_iframe}, stubs,
+                                Obj(_cls='css_match.CSSMatch', _name='matcher'))
+        except Raised as e:
+            out = f'raises {e.exc_name}'
+        except Unsupported as e:
+            raise AnalysisError(f'{q}: outside the evaluable fragment: {e}')
+        return out, seen
+    for q, want, src_kind in (('_DocumentNav.get_text', 'abc', 'descendants'), ('_DocumentNav.get_own_text', ['a', 'b', 'c'], 'contents')):
+        for flag in (True, False):
+            out, seen = collect(q, flag)
+            out = list(out) if isinstance(out, (list, tuple)) else out
+            ok = out == want and seen.get('source') == src_kind and seen.get('no_iframe') is flag
+            r2.instance({'reader': q, 'nodes': [repr(n) for n in nodes], 'no_iframe': flag, 'result': out, 'expected': want,
+                         'node_source': seen.get('source'), 'no_iframe_forwarded': seen.get('no_iframe')}, key=f'{q}-table-{flag}')
+            r2.obligation(ok)
+            if not ok:
+                r2.violation(f'css_match.{q} filter shape', mmod.where(mmod.functions[q]),
+                             f'{q}(no_iframe={flag}) over the child/descendant sequence [text a, comment, tag, text b, CDATA, text c] '
+                             f'returns {out!r} from {seen.get("source")} with no_iframe={seen.get("no_iframe")}; expected {want!r} from '
+                             f'the {src_kind} with the flag forwarded (content strings only, in order, '
+                             f'{"joined without separator" if src_kind == "descendants" else "one entry per node"})')
+
+    # ---- R3 (decision table of match_contains by partial evaluation) -----------------------------------------
+    r3 = report.rule('C19-R3', 'any-of-list substring semantics: joined descendant text vs. one own text node', floor=20)
     _, mc = src.func('css_match.CSSMatch.match_contains')
-    calls = {call_name(c).split('.')[-1]: c for c in walk_no_nested(mc) if isinstance(c, ast.Call)
-             and call_name(c).split('.')[-1] in ('get_text', 'get_own_text')}
-    for nm in ('get_text', 'get_own_text'):
-        c = calls.get(nm)
-        kw = [k for k in c.keywords if k.arg == 'no_iframe'] if c is not None else []
-        val = unparse(kw[0].value) if kw else None
-        ok = c is not None and val == 'self.is_html'
-        r3.instance({'match_contains': f'{nm}(no_iframe={val})', 'ok': ok}, key=nm)
-        r3.obligation(ok)
-        if not ok:
-            r3.violation(f'match_contains {nm} no_iframe={val}', mmod.where(c) if c is not None else mmod.where(mc),
-                         f'match_contains must call {nm}(el, no_iframe=self.is_html): in HTML documents the content of a nested '
-                         f'iframe is excluded, in XML it is not')
-    own_loops = [n for n in walk_no_nested(mc) if isinstance(n, ast.For) and isinstance(n.iter, ast.Name) and n.iter.id == 'content']
-    per_node = bool(own_loops) and any(isinstance(c, ast.Compare) and isinstance(c.ops[0], ast.In)
-                                        and unparse(c.comparators[0]) == own_loops[0].target.id for c in ast.walk(own_loops[0]))
-    r3.instance({'match_contains own branch': 'tests each child string separately', 'ok': per_node}, key='own-loop')
-    r3.obligation(per_node)
-    if not per_node:
-        r3.violation('match_contains own branch', mmod.where(mc),
-                     'match_contains no longer tests `text in <child string>` for each direct child string in the -own branch')
+    own_nodes, joined = ['ab', 'cd'], 'abXcd'       # own text nodes of the element / text of all descendants
+
+    def contains_case(lists, is_html):
+        calls = []
+
+        def get_text(el, no_iframe=False):
+            calls.append(('get_text', no_iframe))
+            return joined
+
+        def get_own_text(el, no_iframe=False):
+            calls.append(('get_own_text', no_iframe))
+            return list(own_nodes)
+        stubs = {'css_match._DocumentNav.get_text': get_text, 'css_match._DocumentNav.get_own_text': get_own_text}
+        me = Obj(_cls='css_match.CSSMatch', _name='matcher', is_html=is_html, is_xml=not is_html)
+        cl = tuple(Obj(_cls='css_types.SelectorContains', _name='SelectorContains', text=tuple(t), own=o) for t, o in lists)
+        try:
+            return bool(call_function(ctx, 'css_match.CSSMatch.match_contains', [Obj(_name='el'), cl], {}, stubs, me)), calls
+        except Raised as e:
+            return f'raises {e.exc_name}', calls
+        except Unsupported as e:
+            raise AnalysisError(f'match_contains: outside the evaluable fragment: {e}')
+
+    def ref(lists):
+        return all(any((any(t in n for n in own_nodes) if own else t in joined) for t in texts) for texts, own in lists)
+    needles = ['ab', 'cd', 'bX', 'bc', 'abXcd', 'zz', 'b', '']
+    cases = [[((t,), own)] for t in needles for own in (False, True)]
+    cases += [[(('zz', t), own)] for t in ('ab', 'bX', 'bc') for own in (False, True)]
+    cases += [[((t1,), o1), ((t2,), o2)] for t1 in ('ab', 'bX', 'zz') for t2 in ('cd', 'bX', 'b') for o1 in (False, True) for o2 in (False, True)]
+    first_bad = None
+    for lists in cases:
+        for is_html in (True, False):
+            got, calls = contains_case(lists, is_html)
+            exp = ref(lists)
+            flags_ok = all(f is is_html for _, f in calls)
+            r3.instance({'contains': [{'any_of': list(t), 'own': o} for t, o in lists], 'html_document': is_html, 'result': got,
+                         'expected': exp, 'text_reads': calls}, key=f'{lists}|{is_html}', sample_cap=4)
+            if (got != exp or not flags_ok) and first_bad is None:
+                first_bad = (lists, is_html, got, exp, calls)
+    r3.obligation(first_bad is None)
+    if first_bad is not None:
+        lists, is_html, got, exp, calls = first_bad
+        what = ' and '.join(f':-soup-contains{"-own" if o else ""}({", ".join(map(repr, t))})' for t, o in lists)
+        r3.violation('css_match.CSSMatch.match_contains table', mmod.where(mc),
+                     f'match_contains answers {got} for {what} on an element whose own text nodes are {own_nodes} and whose '
+                     f'descendant text is {joined!r} ({"HTML" if is_html else "XML"} document, text reads {calls}); expected {exp} with '
+                     f'no_iframe={is_html} on every read: descendant text is searched as one joined string, own text node by node, a '
+                     f'list is any-of, several pseudo-classes are a conjunction')
 
     # ---- R4 ----------------------------------------------------------------------------------------------
     r4 = report.rule('C19-R4', 'needles reach the IR undistorted', floor=2)
